@@ -132,6 +132,7 @@ type ccase struct {
 type replayCase struct {
 	Alphabet *ccase `json:"alphabet"`
 	Before   *ccase `json:"before,omitempty"` // reload: the file the instance was started with
+	Refused  *ccase `json:"refused,omitempty"` // refused reload: the file Restart is called with
 	Case     *ccase `json:"case"`
 	Only     *entry `json:"only,omitempty"` // the single probe to repeat (nil: the whole table)
 }
@@ -470,8 +471,13 @@ func (c *ccase) listeners() []int {
 
 func (c *ccase) ident() string {
 	s := c.Topo + "[" + strings.Join(c.Slots, ",") + "]"
-	if c.Gen == 2 {
+	switch c.Gen {
+	case 2:
 		s = c.Topo + "[" + strings.Join(c.Prev, ",") + "]->[" + strings.Join(c.Slots, ",") + "]"
+	case 3:
+		s += "+refused-site"
+	case 4:
+		s += "->refused"
 	}
 	return s
 }
@@ -831,6 +837,12 @@ func (r *runner) runCase(c *ccase, only *entry) (fs []finding, observed []obs, i
 // runReload starts the file before the reload, lets every listener accept once, restarts the instance
 // with the case's file on the same ports and probes the case's table.
 func (r *runner) runReload(before, c *ccase, only *entry) (fs []finding, infra error) {
+	return r.runReload2(before, nil, c, only)
+}
+
+// runReload2: with refused != nil Restart is called with that file, must return an error, and the case's table
+// (the old file's) is probed on the instance that was running all along.
+func (r *runner) runReload2(before, refused, c *ccase, only *entry) (fs []finding, infra error) {
 	inst, ports, _, serr, infra := r.start(before)
 	if infra != nil {
 		return nil, infra
@@ -861,7 +873,11 @@ func (r *runner) runReload(before, c *ccase, only *entry) (fs []finding, infra e
 	if len(f0) > 0 {
 		return nil, nil // the generation-1 case reports it
 	}
-	text, err := r.fx.casketfile(c, ports)
+	newFile := c
+	if refused != nil {
+		newFile = refused
+	}
+	text, err := r.fx.casketfile(newFile, ports)
 	if err != nil {
 		return nil, err
 	}
@@ -930,10 +946,22 @@ func (r *runner) runReload(before, c *ccase, only *entry) (fs []finding, infra e
 	}
 	close(stopProber)
 	<-proberDone
-	if res.err != nil {
-		return []finding{{clause: "reload", what: "the reload was refused: " + res.err.Error(), exp: "reloads", obs: res.err.Error()}}, nil
+	clause := "reload"
+	if refused != nil {
+		clause = "reload-refused"
+		if res.err == nil {
+			cur = &hx.Site{Inst: res.ni}
+			return []finding{{clause: clause, what: "the reload was accepted although " + refused.Err + " should refuse the file\n" + text, exp: refused.Err, obs: "reloads"}}, nil
+		}
+		if got := errClass(res.err); got != refused.Err {
+			r.note(r.drift, "load-error-class/"+refused.ident()+"/"+got)
+		}
+	} else {
+		if res.err != nil {
+			return []finding{{clause: clause, what: "the reload was refused: " + res.err.Error(), exp: "reloads", obs: res.err.Error()}}, nil
+		}
+		cur = &hx.Site{Inst: res.ni}
 	}
-	cur = &hx.Site{Inst: res.ni}
 	for _, o := range during {
 		r.note(r.stats, "during-reload:"+o.Out)
 		if o.Out != "ok" {
@@ -954,7 +982,7 @@ func (r *runner) runReload(before, c *ccase, only *entry) (fs []finding, infra e
 	if only != nil {
 		tab = []entry{*only}
 	}
-	fs, _, infra = r.runTable(c, ports, tab, "reload")
+	fs, _, infra = r.runTable(c, ports, tab, clause)
 	return
 }
 
@@ -1080,7 +1108,7 @@ func TestCx06CertSel(t *testing.T) {
 		var fs []finding
 		var infra error
 		if rc.Before != nil {
-			fs, infra = r.runReload(rc.Before, rc.Case, rc.Only)
+			fs, infra = r.runReload2(rc.Before, rc.Refused, rc.Case, rc.Only)
 		} else {
 			fs, _, infra = r.runCase(rc.Case, rc.Only)
 		}
@@ -1145,7 +1173,9 @@ func TestCx06CertSel(t *testing.T) {
 	var gen1, gen2, small []*ccase
 	for _, c := range cases {
 		switch {
-		case c.Gen == 2:
+		case c.Gen == 3:
+			// the refused file of a reload: used through its generation-4 case
+		case c.Gen == 2 || c.Gen == 4:
 			gen2 = append(gen2, c)
 		case c.Err != "" || len(c.Slots) <= 1:
 			small = append(small, c)
@@ -1186,8 +1216,12 @@ func TestCx06CertSel(t *testing.T) {
 	)
 	wrap := func(c *ccase, f finding) replayWrap {
 		rc := &replayCase{Alphabet: alpha, Case: c, Only: f.only}
-		if c.Gen == 2 {
+		switch c.Gen {
+		case 2:
 			rc.Before = byKey["1/"+c.Topo+"["+strings.Join(c.Prev, ",")+"]"]
+		case 4:
+			rc.Before = byKey["1/"+c.Topo+"["+strings.Join(c.Slots, ",")+"]"]
+			rc.Refused = byKey["3/"+c.Topo+"["+strings.Join(c.Slots, ",")+"]+refused-site"]
 		}
 		return replayWrap{CertSel: rc}
 	}
@@ -1198,6 +1232,15 @@ func TestCx06CertSel(t *testing.T) {
 				return nil, nil, fmt.Errorf("no generation-1 case for %s", c.ident())
 			}
 			fs, inf := r.runReload(before, c, only)
+			return fs, nil, inf
+		}
+		if c.Gen == 4 {
+			before := byKey["1/"+c.Topo+"["+strings.Join(c.Slots, ",")+"]"]
+			refused := byKey["3/"+c.Topo+"["+strings.Join(c.Slots, ",")+"]+refused-site"]
+			if before == nil || refused == nil {
+				return nil, nil, fmt.Errorf("no generation-1 / refused case for %s", c.ident())
+			}
+			fs, inf := r.runReload2(before, refused, c, only)
 			return fs, nil, inf
 		}
 		return r.runCase(c, only)
@@ -1249,7 +1292,7 @@ func TestCx06CertSel(t *testing.T) {
 						}
 					}
 					nt := ""
-					if len(c.Slots) >= 2 || c.Gen == 2 || c.Topo == "dir" {
+					if len(c.Slots) >= 2 || c.Gen >= 2 || c.Topo == "dir" {
 						nt = fmt.Sprintf("%d/%s", c.Gen, c.ident())
 					}
 					res.Count(nt)
@@ -1259,6 +1302,8 @@ func TestCx06CertSel(t *testing.T) {
 						r.stats["refused:"+c.Err]++
 					case c.Gen == 2:
 						r.stats["reloaded"]++
+					case c.Gen == 4:
+						r.stats["reload-refused"]++
 					default:
 						r.stats["started"]++
 					}
